@@ -148,6 +148,7 @@ type driver struct {
 	nworkers  int
 	start     time.Time
 	infraErrs []string
+	aux       map[string]interface{}
 }
 
 func fatalInfra(format string, a ...interface{}) {
@@ -367,6 +368,9 @@ func (d *driver) check() int {
 		if k.Property != d.prop {
 			continue
 		}
+		if k.Probe == "none-wasm" {
+			continue // re-checked by the engine's js/wasm phase, which has no native probe
+		}
 		res := d.runIsolated(&Request{Kind: "probe", Prop: d.prop, Tier: d.tier, Probe: k.Probe, Keep: true})
 		if res.Infra != "" {
 			fatalInfra("probe %s: %s", k.Probe, res.Infra)
@@ -515,7 +519,19 @@ func (d *driver) check() int {
 		exit = 1
 	}
 
+	// 3b. auxiliary phase of the engine (e.g. the js/wasm half of C19)
+	var auxNotes map[string]interface{}
+	if d.eng.Aux != nil && !survey {
+		var auxLines []string
+		auxLines, auxNotes = d.eng.Aux(d)
+		if len(auxLines) > 0 {
+			violLines = append(violLines, auxLines...)
+			exit = 1
+		}
+	}
+
 	// 4. evidence
+	d.aux = auxNotes
 	d.writeEvidence(agg, knownReport, searchWall, len(violLines))
 
 	for _, l := range violLines {
@@ -539,16 +555,9 @@ func (d *driver) check() int {
 // ---- shrinking -----------------------------------------------------------------------------------
 
 func (d *driver) shrink(choices []uint32, sig string) []uint32 {
-	budget := envInt("VERIF_SHRINK_RUNS", 600)
-	deadline := time.Now().Add(time.Duration(envInt("VERIF_SHRINK_S", 60)) * time.Second)
 	var p *proc
 	defer func() { p.kill() }()
-	runs := 0
-	test := func(c []uint32) bool {
-		if runs >= budget || time.Now().After(deadline) {
-			return false
-		}
-		runs++
+	return shrinkWith(choices, envInt("VERIF_SHRINK_RUNS", 600), func(c []uint32) bool {
 		if p != nil && p.served >= 3000 {
 			p.kill()
 			p = nil
@@ -569,6 +578,19 @@ func (d *driver) shrink(choices []uint32, sig string) []uint32 {
 			return s == sig
 		}
 		return res.Violation != nil && res.Violation.Signature == sig
+	})
+}
+
+// shrinkWith minimises a choice sequence while stillFails holds (generic: delete chunks, zero, halve).
+func shrinkWith(choices []uint32, budget int, stillFails func([]uint32) bool) []uint32 {
+	deadline := time.Now().Add(time.Duration(envInt("VERIF_SHRINK_S", 60)) * time.Second)
+	runs := 0
+	test := func(c []uint32) bool {
+		if runs >= budget || time.Now().After(deadline) {
+			return false
+		}
+		runs++
+		return stillFails(c)
 	}
 	cur := append([]uint32(nil), choices...)
 	// trailing zeros are implied
@@ -644,6 +666,13 @@ type replayFile struct {
 	Active    []string   `json:"active_known_findings,omitempty"`
 }
 
+func (d *driver) writeReplayEngine(res *TrialResult, min, orig []uint32, engine string) string {
+	save := d.eng
+	d.eng = &Engine{Name: engine}
+	defer func() { d.eng = save }()
+	return d.writeReplay(res, min, orig, "")
+}
+
 func (d *driver) writeReplay(res *TrialResult, min, orig []uint32, probe string) string {
 	dir := filepath.Join(d.verifDir, "replays")
 	if repo := os.Getenv("VERIF_REPO"); repo != "" && repo != "/repo" {
@@ -688,6 +717,9 @@ func (d *driver) replayFile(path string) int {
 		}
 	}
 	d.prop = rf.Property
+	if e := engines[rf.Property]; e != nil && e.AuxReplay != nil && strings.HasSuffix(rf.Engine, "/wasm") {
+		return e.AuxReplay(d, &rf, path)
+	}
 	req := &Request{Kind: "replay", Prop: rf.Property, Tier: rf.Tier, Choices: rf.Choices, Keep: true, Active: d.active, Trial: rf.Trial, Seed: rf.TrialSeed}
 	if rf.Probe != "" {
 		req.Kind = "probe"
@@ -815,6 +847,9 @@ func (d *driver) writeEvidence(a *aggregate, knownReport []map[string]interface{
 		"workers":             d.nworkers,
 		"base_seed":           d.seed,
 		"exhaustive":          false,
+	}
+	for k, v := range d.aux {
+		cov[k] = v
 	}
 	level := d.eng.Level
 	if level == "" {
